@@ -12,7 +12,11 @@ Oracles (exactly the two clauses of the statement):
   type) pairs / code objects of its result minus those of its stand-alone result must be empty.
 
 A later test that *loses* its result (timeout=True, nothing covered) because a woken-up abandoned thread stopped the
-tracer is counted as anomaly ``later_result_lost`` — the statement forbids adding, not removing.
+tracer is a pollution of a later execution too (coordinator decision): witness ``later-result-lost:<loop kind>:<timing class>``,
+reported only if it shows in 2 of 3 repetitions of the same interleaving.  The timing class says whether the abandoned thread
+stayed blocked (sleep in progress + injected delay) longer or shorter than the second join (= maximum_test_execution_timeout);
+the second join outlasts a shorter block, so that class must never lose a result.  Executor configurations with
+max != per-statement time are included; there every test is padded to 8 statements so that its budget is at the maximum.
 """
 
 from __future__ import annotations
@@ -25,17 +29,20 @@ LEVEL = "fault_enumeration"
 IN_PROCESS = False
 CHUNK_TIMEOUT = 900
 BOUND = 1  # seconds, maximum_test_execution_timeout
-GRACE_LIMIT = BOUND * 3 + 2
 RULE = (
     "schedules = sequences of terminating tests and looping tests (busy / sleep 0.05-0.3 s / sleep longer than the second join / "
     "repeated C call / BaseException-swallowing loop / raise-from-finally loop) run by one TestCaseExecutor with timeout 1 s, "
-    "crossed with a delay (0-1.5 s) injected into ExecutionTracer.check of abandoned threads; oracle: looping test => "
-    "timeout=True within 3*bound+2 s (overruns re-tried twice), later terminating test => result minus stand-alone result is "
-    "empty for lines, branch outcomes, exceptions, code objects; a schedule is distinct by (kinds, loop parameters, delay)"
+    "crossed with a delay (0-1.5 s) injected into ExecutionTracer.check of abandoned threads and with executor configurations "
+    "(max, per-statement) in {(1,1), (2,0.25), (2,0.5)} (tests padded to 8 statements); oracle: looping test => timeout=True within "
+    "3*max+2 s (overruns re-tried twice), later terminating test => result minus stand-alone result is empty for lines, branch "
+    "outcomes, exceptions, code objects, and its result is not lost (2 of 3 repetitions); a schedule is distinct by (kinds, loop "
+    "parameters, delay, configuration)"
 )
 ASSUMPTIONS = [
     "the stand-alone result is taken in the same fresh chunk process before any looping test ran (two equal runs required)",
-    "a result with timeout=True and no coverage is a lost result (anomaly later_result_lost), not an addition",
+    "a result with timeout=True and no coverage after a looping test is a lost result; it is reported only when it reproduces in "
+    "2 of 3 repetitions and a trivial execution takes < 0.5 s (otherwise the test may have run into its own timeout)",
+    "the block of an abandoned thread is computed from the loop's sleep period (sleep in progress at the timeout) plus the injected delay",
     "an overrun that does not reproduce twice, or that happens while a trivial execution takes > 0.5 s, is load noise",
     "C calls are short (a few ms): a single long GIL-holding C call is outside 'loops in instrumented code'",
 ]
@@ -139,6 +146,7 @@ T_TESTS = {
     "t_small": [f"var_0 = {A}.t_small(1)"],
     "t_raise": [f"var_0 = {A}.t_small(2)", f"var_1 = {A}.t_raise(1)"],
     "t_slow": [f"var_0 = {A}.t_slow(20)"],
+    "t_long": [f"var_0 = {A}.t_slow(55)"],  # ~0.6 s: still running when a thread that overslept the second join wakes up
 }
 
 
@@ -166,25 +174,32 @@ def _loop_lines(kind, rng):
 
 LOOP_KINDS = ["busy", "sleep-short", "c-call", "sleep-long", "swallow", "finally-raise", "nested"]
 DELAYS = [0.0, 0.0, 0.02, 0.2, 0.6, 1.5]
+# (maximum_test_execution_timeout, test_execution_time_per_statement); tests are padded to PAD statements where per < max, so that
+# the budget of every test is "already at the maximum": min(max, per * size) == max
+CONFIGS = [(1, 1), (2, 0.25), (2, 0.5)]
+PAD = 8
+SHORT = "blocked-shorter-than-second-join"
+LONG = "blocked-longer-than-second-join"
 
 
 def floors(tier):
-    k = 1 if tier == "quick" else 6
+    k = 1 if tier == "quick" else 5
     return {
         "evals": 300 * k,
         "distinct": 30 * k,
         "classes": {
             "loop:busy": 15 * k, "loop:sleep-short": 15 * k, "loop:c-call": 15 * k, "loop:sleep-long": 4, "loop:swallow": 2,
             "loop:finally-raise": 4, "loop:nested": 4, "delay-injected": 30 * k, "later:compared": 130 * k,
-            "later:after-delayed-abort": 40 * k,
+            "later:after-delayed-abort": 40 * k, f"timing:{SHORT}": 60 * k, f"timing:{LONG}": 12 * k,
+            "loop:asleep-at-timeout": 12 * k, "loop:budget-at-maximum-with->=5-statements": 12 * k, "config:max!=per-statement": 40 * k,
         },
     }
 
 
 def plan(tier, seed):
     out = [{"name": "directed", "variant": v} for v in range(len(DIRECTED))]
-    parts = 10 if tier == "quick" else 16
-    n = 5 if tier == "quick" else 40
+    parts = 8 if tier == "quick" else 16
+    n = 4 if tier == "quick" else 30
     for p in range(parts):
         out.append({"name": "random", "seed": seed, "part": p, "n": n})
     return out
@@ -192,7 +207,6 @@ def plan(tier, seed):
 
 # ------------------------------------------------------------------------------- monitor / fault injection
 DELAY = [0.0]
-LOOPS_RAN = [0]
 CHECK_CALLS = [0, 0]  # [calls, delayed calls]
 
 
@@ -217,28 +231,41 @@ def _install_check_delay():
     ExecutionTracer.check = check
 
 
-def _facts(summary):
+def _facts(summary, pad=0):
     return {
         "lines": set(summary["lines"]),
         "branches": {tuple(b) for b in summary["branches"]},
-        "exceptions": set(summary["exc"].items()),
+        "exceptions": {(int(p) - pad, e) for p, e in summary["exc"].items()},  # positions relative to the unpadded test
         "code-objects": set(summary["code_objects"]),
     }
 
 
-def _executor(sp):
+def _executor(sp, cfg=(BOUND, BOUND)):
     from pynguin.testcase.execution import TestCaseExecutor
 
-    return TestCaseExecutor(sp, maximum_test_execution_timeout=BOUND, test_execution_time_per_statement=BOUND)
+    return TestCaseExecutor(sp, maximum_test_execution_timeout=cfg[0], test_execution_time_per_statement=cfg[1])
 
 
-def _run_schedule(sp, schedule, delay):
+def _block_after_timeout(entry, delay, cfg):
+    """Seconds an abandoned thread of this looping test stays blocked after the timeout fired (sleep in progress + injected delay)."""
+    allowed = cfg[0]
+    d = entry.get("sleep", 0.0)
+    rest = 0.0
+    if d:
+        import math
+
+        rest = math.ceil(allowed / d - 1e-9) * d - allowed
+    return rest + delay
+
+
+def _run_schedule(sp, schedule, delay, cfg):
     """Execute the schedule with one executor. Returns list of (entry, wall seconds, summary | None)."""
     from vlib import exech as H
 
     DELAY[0] = delay
-    ex = _executor(sp)
+    ex = _executor(sp, cfg)
     out = []
+    worst = 0.0
     for entry in schedule:
         t0 = time.monotonic()
         try:
@@ -247,6 +274,10 @@ def _run_schedule(sp, schedule, delay):
         except Exception as e:  # noqa: BLE001
             summ = {"execute-raised": f"{type(e).__name__}: {e}"[:200]}
         out.append((entry, time.monotonic() - t0, summ))
+        if entry["loop"]:
+            worst = max(worst, _block_after_timeout(entry, delay, cfg))
+    # let the abandoned threads of this schedule die before the next schedule starts (schedules stay independent)
+    time.sleep(min(worst + 0.4, 5.0))
     DELAY[0] = 0.0
     return out
 
@@ -254,7 +285,7 @@ def _run_schedule(sp, schedule, delay):
 def _calibrate(sp, test):
     """Wall time of a trivial execution now (load indicator)."""
     DELAY[0] = 0.0
-    ex = _executor(sp)
+    ex = _executor(sp, (20, 20))
     ts = []
     for _ in range(3):
         t0 = time.monotonic()
@@ -263,95 +294,162 @@ def _calibrate(sp, test):
     return sorted(ts)[1]
 
 
-def _judge(ctx, sp, schedule, delay, base, records, calib_test, descr, allow_retry=True):
-    loops_before = []
+def _scan(ctx, schedule, delay, cfg, base, records, descr, count=True):
+    """One pass over the records of a schedule. Returns (overrun positions, lost: {position: (loop kind, timing class)})."""
+    limit = cfg[0] * 3 + 2
+    loops_before = []  # (kind, block after timeout)
+    over, lost = [], {}
     for idx, (entry, dt, summ) in enumerate(records):
-        case = {"schedule": descr, "delay_in_check": delay, "position": idx, "test": entry["lines"]}
+        case = {"schedule": descr, "delay_in_check": delay, "config": list(cfg), "position": idx, "test": entry["lines"]}
+        kinds = [k for k, _b in loops_before]
         if "execute-raised" in summ:
-            ctx.witness(f"execute-raises:{summ['execute-raised'].split(':')[0]}:after-{'+'.join(sorted(set(loops_before))) or 'nothing'}",
-                        f"TestCaseExecutor.execute raised {summ['execute-raised']}", case)
+            if count:
+                ctx.witness(f"execute-raises:{summ['execute-raised'].split(':')[0]}:after-{kinds[-1] if kinds else 'nothing'}",
+                            f"TestCaseExecutor.execute raised {summ['execute-raised']}", case)
             continue
         if entry["loop"]:
             kind = entry["kind"]
-            cls = [f"loop:{kind}"] + (["delay-injected"] if delay else [])
-            ctx.ok(cls=cls)
-            if not summ["timeout"]:
-                ctx.witness(f"loop-not-flagged-as-timeout:{kind}", f"looping test ({entry['param']}) returned timeout=False after {dt:.2f}s", dict(case, result=summ))
-            elif dt > GRACE_LIMIT:
-                entry.setdefault("overruns", []).append(round(dt, 2))
-            loops_before.append(kind)
-            LOOPS_RAN[0] += 1
+            blk = _block_after_timeout(entry, delay, cfg)
+            if count:
+                cls = [f"loop:{kind}"] + (["delay-injected"] if delay else [])
+                if entry.get("sleep") and blk - delay > 0.05:
+                    cls.append("loop:asleep-at-timeout")
+                if len(entry["lines"]) >= 5 and cfg[1] * len(entry["lines"]) >= cfg[0]:
+                    cls.append("loop:budget-at-maximum-with->=5-statements")
+                if cfg[0] != cfg[1]:
+                    cls.append("config:max!=per-statement")
+                ctx.ok(cls=cls)
+                if not summ["timeout"]:
+                    ctx.witness(f"loop-not-flagged-as-timeout:{kind}", f"looping test ({entry['param']}) returned timeout=False after {dt:.2f}s", dict(case, result=summ))
+            if summ["timeout"] and dt > limit:
+                over.append(idx)
+            loops_before.append((kind, blk))
             continue
         # terminating test
-        if not loops_before:
-            ctx.ok(cls="terminating-before-any-loop")
         b = base[entry["kind"]]
+        if loops_before:
+            ckind, cblk = max(loops_before, key=lambda kb: kb[1])
+            timing = LONG if cblk > cfg[0] else SHORT
         if summ["timeout"] and set(summ["lines"]) <= set(b["import_lines"]):
-            if loops_before or LOOPS_RAN[0]:
-                ctx.anomaly("later_result_lost")  # (possibly by a loop of an earlier schedule in this process)
-            else:
+            if loops_before:
+                lost[idx] = (ckind, timing)
+            elif count:
                 ctx.anomaly("terminating-test-timed-out-without-loop-before")
             continue
-        got, alone = _facts(summ), _facts(b["summary"])
+        if not count:
+            continue
+        got, alone = _facts(summ, len(entry["lines"]) - len(T_TESTS[entry["kind"]])), _facts(b["summary"])
         if loops_before:
-            ctx.ok(cls=["later:compared"] + (["later:after-delayed-abort"] if delay else []))
+            ctx.ok(cls=["later:compared", f"timing:{timing}"] + (["later:after-delayed-abort"] if delay else []))
+        else:
+            ctx.ok(cls="terminating-before-any-loop")
         if summ["timeout"]:
             ctx.anomaly("later_timeout_with_partial_trace")
         for comp in ("lines", "branches", "exceptions", "code-objects"):
             added = got[comp] - alone[comp]
             if added:
                 ctx.witness(
-                    f"added-{comp}:after-{loops_before[-1] if loops_before else 'no-loop'}",
-                    f"{entry['kind']} executed after {loops_before} has {comp} its stand-alone execution does not have: {sorted(added)[:10]}",
+                    f"added-{comp}:after-{kinds[-1] if kinds else 'no-loop'}",
+                    f"{entry['kind']} executed after {kinds} has {comp} its stand-alone execution does not have: {sorted(added)[:10]}",
                     dict(case, alone=b["summary"], later=summ),
                 )
             missing = alone[comp] - got[comp]
             if missing and not summ["timeout"]:
                 ctx.anomaly(f"later_result_missing_{comp}")
-    # overruns: re-try twice
-    over = [(i, e) for i, (e, _dt, _s) in enumerate(records) if e.get("overruns")]
-    if over and allow_retry:
-        reproduced = {i: 1 for i, _ in over}
-        for _ in range(2):
-            again = _run_schedule(sp, schedule, delay)
-            for i, _e in over:
-                if again[i][1] > GRACE_LIMIT:
-                    reproduced[i] += 1
-        cal = _calibrate(sp, calib_test)
-        for i, e in over:
-            if reproduced[i] < 3:
-                ctx.anomaly("timeout-overrun-not-reproduced")
-            elif cal > 0.5:
-                ctx.anomaly("timeout-overrun-on-overloaded-machine")
-                ctx.inconclusive_because(f"timeout overrun for loop {e['kind']} reproduced, but a trivial execution takes {cal:.2f}s (machine overloaded)")
-            else:
-                ctx.witness(f"timeout-overrun:{e['kind']}",
-                            f"looping test ({e['param']}) reported its timeout only after {e['overruns']}s (> {GRACE_LIMIT}s), reproduced 3/3 times",
-                            {"schedule": descr, "delay_in_check": delay, "position": i, "test": e["lines"]})
+    return over, lost
 
 
-def _mk_schedule(spec_list, rng):
-    """spec_list: list of kinds ('t_*' or loop kinds) -> schedule entries with fresh TestCase objects."""
+def _judge(ctx, sp, schedule, delay, cfg, base, records, calib_test, descr):
+    over, lost = _scan(ctx, schedule, delay, cfg, base, records, descr)
+    if not over and not lost:
+        return
+    # both wall-clock verdicts need the same interleaving to misbehave again: 3/3 for an overrun, 2/3 for a lost result
+    over_n = {i: 1 for i in over}
+    lost_n = {i: 1 for i in lost}
+    walls = {i: [round(records[i][1], 2)] for i in over}
+    for _ in range(2):
+        again = _run_schedule(sp, schedule, delay, cfg)
+        o2, l2 = _scan(ctx, schedule, delay, cfg, base, again, descr, count=False)
+        for i in over:
+            if i in o2:
+                over_n[i] += 1
+                walls[i].append(round(again[i][1], 2))
+        for i in lost:
+            if i in l2:
+                lost_n[i] += 1
+    cal = _calibrate(sp, calib_test)
+    for i in over:
+        e = schedule[i]
+        if over_n[i] < 3:
+            ctx.anomaly("timeout-overrun-not-reproduced")
+        elif cal > 0.5:
+            ctx.anomaly("timeout-overrun-on-overloaded-machine")
+            ctx.inconclusive_because(f"timeout overrun for loop {e['kind']} reproduced, but a trivial execution takes {cal:.2f}s (machine overloaded)")
+        else:
+            ctx.witness(f"timeout-overrun:{e['kind']}",
+                        f"looping test ({e['param']}) reported its timeout only after {walls[i]}s (> {cfg[0] * 3 + 2}s), reproduced 3/3 times",
+                        {"schedule": descr, "delay_in_check": delay, "config": list(cfg), "position": i, "test": e["lines"]})
+    for i, (kind, timing) in lost.items():
+        e = schedule[i]
+        if lost_n[i] < 2:
+            ctx.anomaly("later_result_lost_not_reproduced")
+        elif cal > 0.5:
+            ctx.anomaly("later_result_lost_on_overloaded_machine")
+            ctx.inconclusive_because(f"result lost after a {kind} loop ({timing}), but a trivial execution takes {cal:.2f}s (machine overloaded: "
+                                     f"the test may simply have run into its own timeout)")
+        else:
+            ctx.witness(
+                f"later-result-lost:{kind}:{timing}",
+                f"{e['kind']} executed after a timed-out {kind} loop came back with timeout=True and an empty trace in {lost_n[i]}/3 repetitions: "
+                f"the abandoned thread woke up later and stopped the tracer of the running test",
+                {"schedule": descr, "delay_in_check": delay, "config": list(cfg), "position": i, "test": e["lines"]},
+            )
+
+
+def _pad(lines, cfg):
+    """Cheap leading statements so that per_statement * size >= max (budget at the maximum) and size >= 5."""
+    if cfg[0] == cfg[1]:
+        return list(lines)
+    pad = [f"pad_{i} = {i}" for i in range(max(0, PAD - len(lines)))]
+    return pad + list(lines)
+
+
+def _mk_schedule(spec_list, rng, cfg):
+    """spec_list: list of kinds ('t_*' or loop kinds, optionally (kind, sleep seconds)) -> schedule entries."""
     from vlib import exech as H
 
     sched = []
-    for kind in spec_list:
+    for item in spec_list:
+        kind, forced = (item, None) if isinstance(item, str) else item
         if kind.startswith("t_"):
-            lines = T_TESTS[kind]
+            lines = _pad(T_TESTS[kind], cfg)
             sched.append({"loop": False, "kind": kind, "lines": lines, "test": H.mk_test(lines), "param": ""})
         else:
-            lines, param = _loop_lines(kind, rng)
-            sched.append({"loop": True, "kind": kind, "lines": lines, "test": H.mk_test(lines), "param": param})
+            if forced is not None:
+                lines, param = [f"var_0 = {A}.l_sleep({forced})"], f"sleep({forced})"
+            else:
+                lines, param = _loop_lines(kind, rng)
+            sleep = float(param[6:-1]) if param.startswith("sleep(") else 0.0
+            lines = _pad(lines, cfg)
+            sched.append({"loop": True, "kind": kind, "lines": lines, "test": H.mk_test(lines), "param": param, "sleep": sleep})
     return sched
 
 
+# (kinds, injected delay, config index)
 DIRECTED = [
-    (["t_small", "busy", "t_classify", "t_small", "sleep-short", "t_raise", "t_slow", "c-call", "t_classify", "t_small", "nested", "t_raise"], 0.0),
-    (["busy", "t_small", "t_slow", "sleep-short", "t_classify", "c-call", "t_raise", "finally-raise", "t_small", "t_classify", "busy", "busy", "t_slow"], 0.2),
-    (["sleep-long", "t_slow", "t_small", "t_classify", "t_slow", "swallow", "t_small", "t_raise", "finally-raise", "t_classify"], 0.0),
-    (["c-call", "t_slow", "t_small", "busy", "t_slow", "t_classify", "nested", "t_slow", "t_raise", "sleep-short", "t_slow", "t_small"], 0.6),
-    (["sleep-long", "t_small", "sleep-long", "t_slow", "t_classify", "swallow", "t_raise", "sleep-long", "t_slow", "t_small", "nested", "t_classify"], 0.0),
-    (["busy", "t_slow", "t_small", "c-call", "t_slow", "t_raise", "sleep-short", "t_slow", "t_classify", "finally-raise", "t_slow"], 1.5),
+    (["t_small", "busy", "t_classify", "t_small", "sleep-short", "t_raise", "t_slow", "c-call", "t_classify", "t_small", "nested", "t_raise"], 0.0, 0),
+    (["busy", "t_small", "t_slow", "sleep-short", "t_classify", "c-call", "t_raise", "finally-raise", "t_small", "t_classify", "busy", "busy", "t_slow"], 0.2, 0),
+    (["sleep-long", "t_slow", "t_small", "t_classify", "t_slow", "swallow", "t_small", "t_raise", "finally-raise", "t_classify"], 0.0, 0),
+    (["c-call", "t_slow", "t_small", "busy", "t_slow", "t_classify", "nested", "t_slow", "t_raise", "sleep-short", "t_slow", "t_small"], 0.6, 0),
+    # abandoned thread blocked LONGER than the second join: sleep in progress ends 0.6 s after execute() returned, while t_long runs
+    ([("sleep-long", 2.3), "t_long", "t_small", ("sleep-long", 2.3), "t_long", "t_classify", ("sleep-long", 2.3), "t_long", "t_raise"], 0.0, 0),
+    (["busy", "t_long", "t_small", "c-call", "t_long", "t_raise", "nested", "t_long", "t_classify", "finally-raise", "t_long"], 1.3, 0),
+    # blocked SHORTER than the second join, asleep at the moment of the timeout, >= 8 statements, budget at the maximum, max != per
+    ([("sleep-short", 0.3), "t_slow", ("sleep-short", 0.45), "t_slow", "t_small", ("sleep-short", 0.6), "t_slow", ("sleep-short", 0.35), "t_long",
+      ("sleep-short", 0.55), "t_slow", "t_raise"], 0.0, 1),
+    ([("sleep-short", 0.6), "t_slow", ("sleep-short", 0.25), "t_slow", "t_classify", ("sleep-short", 0.45), "t_long", "busy", "t_slow",
+      ("sleep-short", 0.35), "t_slow"], 0.0, 2),
+    ([("sleep-short", 0.45), "t_slow", "c-call", "t_slow", ("sleep-short", 0.6), "t_slow", "nested", "t_long", ("sleep-short", 0.3), "t_slow"], 0.2, 1),
 ]
 
 
@@ -363,16 +461,14 @@ def run_chunk(spec, ctx):
     # stand-alone results first (fresh process, no looping test has run yet); two equal runs required
     base = {}
     import_lines = sorted(sp.lineids_to_linenos(sp.instrumentation_tracer.import_trace.covered_line_ids))
-    from pynguin.testcase.execution import TestCaseExecutor
 
     def alone(t):
         # the stand-alone result is not about timeouts: generous budget, so that a loaded machine does not spoil it
-        ex = TestCaseExecutor(sp, maximum_test_execution_timeout=20, test_execution_time_per_statement=20)
-        return H.summarize(ex.execute(t), sp, assertions=False, verification=False)
+        return H.summarize(_executor(sp, (20, 20)).execute(t), sp, assertions=False, verification=False)
 
     for kind, lines in T_TESTS.items():
         t = H.mk_test(lines)
-        for attempt in range(3):
+        for _attempt in range(3):
             s1, s2 = alone(t), alone(t)
             if s1 == s2 and not s1["timeout"]:
                 break
@@ -385,35 +481,41 @@ def run_chunk(spec, ctx):
     ctx.extra.setdefault("calibration_trivial_execution_s", []).append(round(cal0, 3))
 
     if spec["name"] == "directed":
-        kinds, delay = DIRECTED[spec["variant"]]
+        kinds, delay, ci = DIRECTED[spec["variant"]]
         rng = random.Random(32 + spec["variant"])
-        todo = [(kinds, delay)]
+        todo = [(kinds, delay, CONFIGS[ci])]
     else:
         rng = random.Random(spec["seed"] * 1000003 + spec["part"] * 131 + 32)
         todo = []
         for _ in range(spec["n"]):
+            cfg = rng.choice(CONFIGS)
             n = rng.randint(6, 11)
             kinds = []
-            for i in range(n):
+            for _i in range(n):
                 if rng.random() < 0.33:
-                    kinds.append(rng.choices(LOOP_KINDS, weights=[5, 5, 5, 1, 0.5, 2, 2])[0])
+                    k = rng.choices(LOOP_KINDS, weights=[5, 5, 5, 1, 0.5, 2, 2])[0]
+                    if k == "sleep-short" and cfg[0] >= 2 and rng.random() < 0.6:
+                        k = ("sleep-short", rng.choice([0.25, 0.3, 0.4, 0.5, 0.6]))
+                    kinds.append(k)
                 else:
-                    kinds.append(rng.choice(list(T_TESTS)))
-            if not any(not k.startswith("t_") for k in kinds):
+                    kinds.append(rng.choice(["t_classify", "t_small", "t_raise", "t_slow", "t_slow", "t_long"]))
+            if not any(not (isinstance(k, str) and k.startswith("t_")) for k in kinds):
                 kinds.insert(rng.randrange(len(kinds)), "busy")
             if kinds.count("swallow") > 1:
                 kinds = [k for i, k in enumerate(kinds) if k != "swallow" or i == kinds.index("swallow")]
-            if all(not k.startswith("t_") for k in kinds[-2:]):
-                kinds.append("t_small")
-            todo.append((kinds, rng.choice(DELAYS)))
-    for kinds, delay in todo:
-        sched = _mk_schedule(kinds, rng)
+            if all(not (isinstance(k, str) and k.startswith("t_")) for k in kinds[-2:]):
+                kinds.append("t_slow")
+            # the injected delay is kept well on one side of the second join (= max timeout): <= 0.6 * max, or >= 1.5 * max
+            delay = rng.choice([d for d in DELAYS if d <= 0.6 * cfg[0] or d >= 1.5 * cfg[0]])
+            todo.append((kinds, delay, cfg))
+    for kinds, delay, cfg in todo:
+        sched = _mk_schedule(kinds, rng, cfg)
         descr = [f"{e['kind']}[{e['param']}]" if e["loop"] else e["kind"] for e in sched]
-        records = _run_schedule(sp, sched, delay)
-        _judge(ctx, sp, sched, delay, base, records, calib_test, descr)
-        ctx.ok(0, distinct=[descr, delay])
+        records = _run_schedule(sp, sched, delay, cfg)
+        _judge(ctx, sp, sched, delay, cfg, base, records, calib_test, descr)
+        ctx.ok(0, distinct=[descr, delay, list(cfg)])
         if len(ctx.samples) < 2:
-            ctx.sample({"schedule": descr, "delay_in_check": delay,
+            ctx.sample({"schedule": descr, "delay_in_check": delay, "config": list(cfg),
                         "wall_s": [round(dt, 2) for _e, dt, _s in records],
                         "timeout_flags": [s.get("timeout") for _e, _dt, s in records]})
     ctx.extra["check_calls"] = CHECK_CALLS[0]
